@@ -33,7 +33,8 @@ fn one(out: &mut Out, fi: usize, data: &[u8], w: u32, h: u32, rect: (u32, u32, u
     let buflen = offset + need + 5;
     let mut buf = vec![prefill; buflen];
     let block = match PixelInfo::from(format) { PixelInfo::Block(b) if rw > 0 && rh > 0 => Some(b), _ => None };
-    if block.is_some() { dds::verif_hooks::start_block_trace(); }
+    let fixed = match PixelInfo::from(format) { PixelInfo::Fixed { bytes_per_pixel } if rw > 0 && rh > 0 => Some(bytes_per_pixel as usize), _ => None };
+    if block.is_some() || fixed.is_some() { dds::verif_hooks::start_block_trace(); }
     let res = {
         let view = ImageViewMut::new_with(&mut buf[offset..offset + need], pitch, Size::new(rw, rh), color);
         let Some(view) = view else { println!("IMPL-VIOLATION view refused: {name} {rw}x{rh} pitch {pitch}"); return; };
@@ -63,6 +64,24 @@ fn one(out: &mut Out, fi: usize, data: &[u8], w: u32, h: u32, rect: (u32, u32, u
             out.count("trace_cases"); out.count(if conv == 1 { "trace_conv" } else { "trace_native" });
             out.case(51, &targs, &obs);
         } else if let Some(Ok(())) = &res { println!("IMPL-VIOLATION no block trace: {name} {w}x{h} rect {rect:?}"); }
+    }
+    // tag 52: the ProcessPixelsFn calls of the uncompressed paths against model/PixelPath.v (the specialised whole-image
+    // copies make no such call: nothing to compare then)
+    if let Some(ebpp) = fixed {
+        let trace = dds::verif_hooks::take_block_trace();
+        if let (Some(Ok(())), Some(first)) = (&res, trace.first()) {
+            if first[0] == 2 && first.len() == 7 {
+                let (bbpp, conv) = (first[5], first[6]);
+                let targs: Vec<i128> = vec![conv as i128, bbpp as i128, ebpp as i128, bpp as i128, rw as i128, rh as i128];
+                let mut obs: Vec<i128> = Vec::new();
+                for e in &trace {
+                    let e: &[usize] = if e[0] == 2 && e.len() == 7 && (e[5], e[6]) == (bbpp, conv) { &e[..5] } else { &e[..] };
+                    obs.push(e.len() as i128); obs.extend(e.iter().map(|&v| v as i128));
+                }
+                out.count("pixel_trace_cases"); out.count(if conv == 1 { "pixel_trace_conv" } else { "pixel_trace_native" });
+                out.case(52, &targs, &obs);
+            }
+        }
     }
     match res { Some(Ok(())) => {} other => { println!("IMPL-VIOLATION decode{} failed ({:?}): {name} {w}x{h} rect {rect:?} to {:?} {:?}", if use_full { "" } else { "_rect" }, other.map(|r| r.map_err(|e| e.to_string())), to, prec); return; } }
     let esize = prec.size() as i128;
